@@ -19,6 +19,8 @@ Generic additions of `T13` over `Translator2M` (nothing specific to menpo; a sub
   (= `if c: x = A else: x = B`)                                           in the scope, so each arm of an `if` has its own
   `helper(args)` / `x = helper(args)` for a straight-line function   ->  inlined at the call site (parameters substituted,
   of the same menpo module without a rule                                 locals renamed): extracted guard helpers
+  `[E for t in (a, b)]` over a display of variables / constants     ->  unrolled `[E[t:=a], E[t:=b]]`; `p, q = [x, y]` = `p, q = (x, y)`;
+                                                                         `x = [e0, e1]` only read as `x[0]`, `x[1]` = two variables
   `a:b` in a subscript / `isinstance(x, (A, B))` / `a != b`          ->  `slice(a, b)` / `isinstance(x, A) or isinstance(x, B)`
                                                                          / `not a == b` when only `==` has a rule
   str constants                                                      ->  through `Rules13.strings` (e.g. "constant")
@@ -68,6 +70,61 @@ class _SliceNorm(ast.NodeTransformer):
             return ast.copy_location(ast.Call(func=ast.Name(id="slice", ctx=ast.Load()),
                                               args=[node.lower, node.upper], keywords=[]), node)
         return node
+
+
+def _pure_atom(n):
+    return isinstance(n, (ast.Name, ast.Constant))
+
+
+class _Unroll(ast.NodeTransformer):
+    """`[E for t in (a, b)]` over a display of variables / constants  ->  `[E[t:=a], E[t:=b]]` (same evaluation order);
+    for list comprehensions and generator arguments with one generator, a variable target and no condition"""
+
+    def _try(self, node):
+        import copy
+        if len(node.generators) != 1:
+            return None
+        g = node.generators[0]
+        if g.ifs or g.is_async or not isinstance(g.target, ast.Name) or not isinstance(g.iter, (ast.Tuple, ast.List)) \
+                or not g.iter.elts or not all(_pure_atom(e) for e in g.iter.elts):
+            return None
+        return [_Subst({g.target.id: e}).visit(copy.deepcopy(node.elt)) for e in g.iter.elts]
+
+    def visit_ListComp(self, node):
+        self.generic_visit(node)
+        elts = self._try(node)
+        return node if elts is None else ast.copy_location(ast.List(elts=elts, ctx=ast.Load()), node)
+
+
+class _IndexSplit(ast.NodeTransformer):
+    """`x[i]` (constant i) -> the variable `x__i`"""
+
+    def __init__(self, name, n):
+        self.name, self.n = name, n
+
+    def visit_Subscript(self, node):
+        if (isinstance(node.value, ast.Name) and node.value.id == self.name and isinstance(node.slice, ast.Constant)
+                and isinstance(node.slice.value, int) and 0 <= node.slice.value < self.n):
+            return ast.copy_location(ast.Name(id="%s__%d" % (self.name, node.slice.value), ctx=node.ctx), node)
+        self.generic_visit(node)
+        return node
+
+
+def _only_const_indexed(name, n, stmts):
+    """every later use of `name` is `name[i]` with a constant 0 <= i < n, and it is never re-bound"""
+    for st in stmts:
+        parents = {}
+        for par in ast.walk(st):
+            for ch in ast.iter_child_nodes(par):
+                parents[ch] = par
+        for nd in ast.walk(st):
+            if isinstance(nd, ast.Name) and nd.id == name:
+                par = parents.get(nd)
+                if not (isinstance(nd.ctx, ast.Load) and isinstance(par, ast.Subscript) and par.value is nd
+                        and isinstance(par.slice, ast.Constant) and isinstance(par.slice.value, int)
+                        and 0 <= par.slice.value < n and isinstance(par.ctx, ast.Load)):
+                    return False
+    return True
 
 
 class _Subst(ast.NodeTransformer):
@@ -312,8 +369,23 @@ class T13(P.Translator2M):
         pad = "  " * ind
         if stmts:
             import copy
-            st = ast.fix_missing_locations(_SliceNorm().visit(copy.deepcopy(stmts[0])))
+            st = ast.fix_missing_locations(_Unroll().visit(_SliceNorm().visit(copy.deepcopy(stmts[0]))))
             rest = stmts[1:]
+            # `a, b = [x, y]`  =  `a, b = (x, y)`
+            if (isinstance(st, ast.Assign) and len(st.targets) == 1 and isinstance(st.targets[0], (ast.Tuple, ast.List))
+                    and isinstance(st.value, ast.List) and len(st.value.elts) == len(st.targets[0].elts)):
+                st = ast.fix_missing_locations(ast.Assign(targets=st.targets,
+                                                          value=ast.Tuple(elts=st.value.elts, ctx=ast.Load())))
+            # `x = [e0, e1]` whose later uses are all `x[0]`, `x[1]`  =  `x__0 = e0; x__1 = e1`
+            if (isinstance(st, ast.Assign) and len(st.targets) == 1 and isinstance(st.targets[0], ast.Name)
+                    and isinstance(st.value, (ast.List, ast.Tuple)) and st.value.elts
+                    and not self._has_stmt_rule(st) and not self._has_expr_rule(st.value)
+                    and ctx.brk is None and _only_const_indexed(st.targets[0].id, len(st.value.elts), rest)):
+                x, n = st.targets[0].id, len(st.value.elts)
+                pre = [ast.fix_missing_locations(ast.Assign(targets=[ast.Name(id="%s__%d" % (x, i), ctx=ast.Store())], value=e))
+                       for i, e in enumerate(st.value.elts)]
+                new_rest = [ast.fix_missing_locations(_IndexSplit(x, n).visit(copy.deepcopy(r))) for r in rest]
+                return self.block(pre + new_rest, scope, ind, ctx)
             stmts = [st] + list(rest)
             # ---- calls of helpers the vocabulary has no word for: inlined (depth-limited)
             if self._inl < 40 and not self._has_stmt_rule(st):
@@ -542,7 +614,8 @@ def items():
             ("self.true_indices()", "(Src.trueIndices mask)"),
             ("np.max($x, axis=0)", "Pc.colMaxZ {x}", "bind"), ("np.min($x, axis=0)", "Pc.colMinZ {x}", "bind"),
             ("self.constrain_points_to_bounds($x)", "(Src.constrainPointsToBounds mask {x})"),
-            ("self.mask.bounds_true(boundary=$b, constrain_to_bounds=$c)", "Src.boundsTrue mask {b} {c}", "bind"),
+            ("self.mask", "mask"),
+            ("$m.bounds_true(boundary=$b, constrain_to_bounds=$c)", "Src.boundsTrue {m} {b} {c}", "bind"),
             ("self.crop($a, $b, constrain_to_boundary=$c, return_transform=$r)",
              "Src.crop pix lms zero (V.toRat {a}) (V.toRat {b}) {c} {r}", "bind")]
     add("def genTrueIndices (mask : NDArr Bool) : List (List Nat) :=", "[]",
@@ -634,10 +707,11 @@ def items():
     add("def genConvertPatchesList {α : Type} (dflt : α) (patcheslist : List (NDArr α)) (ncenter : Nat) : "
         "Except Err (NDArr α) :=", ".error .boundary",
         lambda: T13(R(expr=[("int(len($l) / $n)", "Np.intDivE (List.length {l}) {n}", "bind"),
-                            ("$l[0].n_channels", "PList.nChannels0 {l}", "bind"),
-                            ("$l[0].height", "PList.height0 {l}", "bind"),
-                            ("$l[0].width", "PList.width0 {l}", "bind"),
-                            ("$l[0].pixels.dtype", "()"),
+                            ("patches_list[0]", "PList.head patcheslist", "bind"),
+                            ("$p.n_channels", "(PImg.nChannels {p})"),
+                            ("$p.height", "(PImg.height {p})"),
+                            ("$p.width", "(PImg.width {p})"),
+                            ("$p.pixels.dtype", "()"),
                             ("np.empty(($a, $b, $c, $d, $e), dtype=$t)", "(Except.ok (full [{a}, {b}, {c}, {d}, {e}] dflt))"),
                             ("range($n)", "(List.range {n})")],
                       ret="{e}",
